@@ -15,8 +15,8 @@ STUBS = []
 OUTSIDE = ["async references (C10)", "class-level references", "references nested deeper than one list level"]
 ASSUMPTIONS = ["x has bounds (0, 50); source values symbolic ints; a source value whose resolution is outside the bounds must be "
                "rejected (the source assignment raises) and leaves x at its previous value"]
-N_OPS = 10
-KINDS = ['Parameter', 'bind', 'rx', 'depends function']
+N_OPS = 11
+KINDS = ['Parameter', 'bind', 'rx', 'depends function', 'nestedbind: bind over a nested bind given as keyword, two sources with the same parameter name']
 
 
 class S(param.Parameterized):
@@ -39,9 +39,10 @@ def _nwatch(src, tgt):
     return n
 
 
-def prog(kind: int, at_ctor: bool, k: int, last_is_update: bool, o1: int, v1: int, o2: int, v2: int, o3: int, v3: int, o4: int, v4: int) -> None:
+def prog(kind: int, at_ctor: bool, k: int, last_is_update: bool, o1: int, v1: int, o2: int, v2: int, o3: int, v3: int, o4: int, v4: int,
+         ur: int = 0) -> None:
     with untraced():
-        s0, s1 = S(), S()
+        s0, s1, s2 = S(), S(), S()
         srcs = [s0, s1]
 
     def mkref(s):
@@ -51,11 +52,13 @@ def prog(kind: int, at_ctor: bool, k: int, last_is_update: bool, o1: int, v1: in
             return param.bind(lambda v: v + 1, s.param.v)
         if kind == 2:
             return s.param.v.rx() * 2
+        if kind == 4:
+            return param.bind(lambda w: w, w=param.bind(lambda a, b: a + b, a=s.param.v, b=s2.param.v))
         f = param.depends(s.param.v)(lambda v: v + 1)
         return f
 
     def resolve(s):
-        return [s.v, s.v + 1, s.v * 2, s.v + 1][kind]
+        return [s.v, s.v + 1, s.v * 2, s.v + 1, s.v + s2.v][kind]
     if pickbool(at_ctor):
         t = T(x=mkref(s0), y=s1.param.v, z=[s1.param.v, 7])
     else:
@@ -68,12 +71,26 @@ def prog(kind: int, at_ctor: bool, k: int, last_is_update: bool, o1: int, v1: in
     for step, (o, v) in enumerate(((o1, v1), (o2, v2), (o3, v3), (o4, v4))[:k]):
         o = pick(o, 0, N_OPS - 1)
         cover('C08.op%d' % o)
-        info = {'op': o, 'kind': KINDS[kind], 'step': step, 'at_ctor': at_ctor}
-        if o in (0, 1):                       # source update
+        info = {'op': o, 'kind': KINDS[kind].split(':')[0], 'step': step, 'at_ctor': at_ctor}
+        if o == 10:
+            assume(kind == 4)                 # the second source of the nested bind
+            newx = (srcs[st['xsrc']].v + v) if st['xsrc'] is not None else None
+            try:
+                s2.v = v
+                raised = False
+            except ValueError:
+                raised = True
+            if newx is not None and not (0 <= newx <= 50):
+                check('C08.invalid_rejected', t.x == st['curx'], info)
+            else:
+                check('C08.invalid_rejected', not raised, info)
+                if newx is not None:
+                    st['curx'] = newx
+        elif o in (0, 1):                     # source update
             s = srcs[o]
             newx = None
             if st['xsrc'] == o:
-                r = [v, v + 1, v * 2, v + 1][kind]
+                r = [v, v + 1, v * 2, v + 1, v + s2.v][kind]
                 newx = r
             try:
                 s.v = v
@@ -109,7 +126,8 @@ def prog(kind: int, at_ctor: bool, k: int, last_is_update: bool, o1: int, v1: in
             st['curx'] = v
         elif o == 5:                          # update as context manager
             assume(len(ctx) < 1 and 0 <= v <= 50)
-            cm = t.param.update(x=v)
+            ur = pick(ur, 0, 2)          # route of the update context: keywords / a dict / an iterable of (name, value) pairs
+            cm = t.param.update(x=v) if ur == 0 else (t.param.update({'x': v}) if ur == 1 else t.param.update([('x', v)]))
             cm.__enter__()
             ctx.append((cm, st['xsrc'], st['curx']))
             st['xsrc'] = None
@@ -139,7 +157,7 @@ def prog(kind: int, at_ctor: bool, k: int, last_is_update: bool, o1: int, v1: in
             check('C08.no_stale_watcher', _nwatch(s, t) == need, dict(info, src=i, have=_nwatch(s, t), need=need))
 
 
-prog.ranges = lambda consts: dict(o1=(0, N_OPS - 1), o2=(0, N_OPS - 1), o3=(0, 1) if consts.get('last_is_update') and consts['k'] == 3 else (0, N_OPS - 1),
+prog.ranges = lambda consts: dict(ur=(0, 2), o1=(0, N_OPS - 1), o2=(0, N_OPS - 1), o3=(0, 1) if consts.get('last_is_update') and consts['k'] == 3 else (0, N_OPS - 1),
                                   o4=(0, 1) if consts.get('last_is_update') else (0, N_OPS - 1))
 
 
@@ -147,15 +165,17 @@ def shards(tier):
     out = []
     q = tier == 'quick'
     k = 3 if q else 4
-    for kind in range(4):
+    for kind in range(5):
         for at_ctor in (False, True):
             for o1 in range(N_OPS):
-                if o1 == 6:
+                if o1 == 6 or (o1 == 10 and kind != 4):
+                    continue
+                if q and kind == 4 and o1 not in (0, 2, 3, 10):
                     continue
                 c = dict(kind=kind, at_ctor=at_ctor, k=k, o1=o1, last_is_update=q)
                 if k < 4:
                     c.update(o4=0, v4=0)
-                out.append(dict(name='%s_c%d_o%d' % (KINDS[kind].split()[0], at_ctor, o1), module='harness.c08', fn='prog',
+                out.append(dict(name='%s_c%d_o%d' % (KINDS[kind].split(':')[0].split()[0], at_ctor, o1), module='harness.c08', fn='prog',
                                 consts=c, budget_s=60 if q else 600))
     return out
 
@@ -163,4 +183,5 @@ def shards(tier):
 def bounds(tier):
     return dict(program_length='3, the last operation being a source update' if tier == 'quick' else 4, reference_kinds=KINDS, link_time=['constructor', 'later assignment'],
                 opcodes=['set s0.v', 'set s1.v', 'relink x to s1', 'override x', 'relink x to s0', 'update-context enter',
-                         'update-context exit', 'relink y', 'relink nested z', "trigger('x','y')"])
+                         'update-context exit', 'relink y', 'relink nested z', "trigger('x','y')", 'set the second source of the nested bind'],
+                update_context_routes=['keywords', 'dict', 'iterable of pairs'])
